@@ -110,7 +110,7 @@ func Generate(r *rand.Rand, k Knobs) *Scenario {
 			s.PkgName = "" // inferred by jennifer
 		} else {
 			s.Ctor = "NewFilePathName"
-			s.PkgName = []string{"main", "local", "x"}[r.Intn(3)]
+			s.PkgName = []string{"main", "local", "x", "x_test", "local_test"}[r.Intn(5)]
 		}
 	} else {
 		s.Ctor = "NewFile"
@@ -191,6 +191,9 @@ func Generate(r *rand.Rand, k Knobs) *Scenario {
 			p := domains[r.Intn(len(domains))] + "/" + base
 			if r.Intn(15) == 0 {
 				p += "/"
+				if r.Intn(3) == 0 {
+					p += "/" // two trailing slashes: only one is tolerated when the name is guessed
+				}
 			}
 			if r.Intn(30) == 0 {
 				p = base // single-element path
@@ -245,6 +248,17 @@ func Generate(r *rand.Rand, k Knobs) *Scenario {
 				m[q.Path] = q.TrueName
 			}
 			s.Hints = append(s.Hints, Hint{Op: "ImportNames", Names: m})
+		}
+	}
+	// a project-wide hint table may well mention the file's own package (it never becomes an import)
+	if s.LocalPath != "" && r.Intn(6) == 0 {
+		switch r.Intn(3) {
+		case 0:
+			s.Hints = append(s.Hints, Hint{Op: "ImportAlias", Path: s.LocalPath, Name: "."})
+		case 1:
+			s.Hints = append(s.Hints, Hint{Op: "ImportAlias", Path: s.LocalPath, Name: "self"})
+		default:
+			s.Hints = append(s.Hints, Hint{Op: "ImportName", Path: s.LocalPath, Name: "selfname"})
 		}
 	}
 	// a hint may be overridden by a later one for the same path (last call wins)
